@@ -236,3 +236,163 @@ def make_ecu(transport: BaseTransport, handler: Any, max_retry: int = 0) -> Any:
     ecu.retry_wait = 0.0  # harness configuration: no real back-off sleeps on the real loop
     ecu.db_handler = handler
     return ecu
+
+
+# ---- writer faults (C11: database contention seen by the writer task) -------------------------------------------
+class WriterFaults:
+    """Seeded 'database is locked' failures for the rows the DBHandler's writer task inserts into scan_result.
+
+    install() replaces `handler.connection.execute` (an instance attribute of the aiosqlite connection; gallia's code is not
+    touched) by a wrapper.  Rows are numbered in the order in which their INSERT is first attempted (= transmission order:
+    the queue is FIFO and a row that was never attempted is never overtaken by another row that was never attempted).
+    plan = {ordinal: j}: the first j attempts of that row fail with aiosqlite.OperationalError("database is locked") - as
+    sqlite does after its busy timeout, i.e. not before the event loop had at least one turn (`yields` scheduling points,
+    plus `pause` real seconds) - and attempt j+1 is handed to the real connection.  Every other statement goes straight through.
+
+    attempts: [ordinal, "fail" | "pass", disconnect() already called, rows still queued behind this one] per attempt.
+    rows: the parameter tuples in first-attempt order (strong references: identities stay unique).
+    """
+
+    INSERT = "INSERT INTO scan_result"
+
+    def __init__(self, plan: dict[Any, int], yields: int = 1, pause: float = 0.0) -> None:
+        self.plan = {int(k): int(v) for k, v in plan.items()}
+        self.left = dict(self.plan)
+        self.yields = max(1, int(yields))
+        self.pause = float(pause)
+        self.rows: list[tuple[Any, ...]] = []
+        self._ordinal: dict[int, int] = {}
+        self.attempts: list[list[Any]] = []
+        self.closing = False
+
+    def install(self, handler: Any) -> None:
+        import aiosqlite
+
+        conn = handler.connection
+        assert conn is not None
+        orig = conn.execute
+
+        async def locked() -> Any:
+            for _ in range(self.yields):
+                await asyncio.sleep(0)
+            if self.pause:
+                await asyncio.sleep(self.pause)
+            raise aiosqlite.OperationalError("database is locked")
+
+        def execute(sql: Any, parameters: Any = None) -> Any:
+            if isinstance(sql, str) and sql.startswith(self.INSERT) and isinstance(parameters, tuple):
+                n = self._ordinal.get(id(parameters))
+                if n is None:
+                    n = len(self.rows)
+                    self.rows.append(parameters)
+                    self._ordinal[id(parameters)] = n
+                q = handler._execute_queue
+                behind = q.qsize() if q is not None else -1
+                if self.left.get(n, 0) > 0:
+                    self.left[n] -= 1
+                    self.attempts.append([n, "fail", self.closing, behind])
+                    return locked()
+                self.attempts.append([n, "pass", self.closing, behind])
+            return orig(sql, parameters)
+
+        conn.execute = execute  # instance attribute: shadows the method for this connection only
+
+    # -- what happened
+    def failed(self) -> dict[int, int]:
+        out: dict[int, int] = {}
+        for n, kind, _, _ in self.attempts:
+            if kind == "fail":
+                out[n] = out.get(n, 0) + 1
+        return out
+
+    def passed(self) -> set[int]:
+        return {n for n, kind, _, _ in self.attempts if kind == "pass"}
+
+    def critical_rows(self) -> set[int]:
+        """rows that failed at least twice in a row as the last outstanding row while disconnect() was already waiting"""
+        out: set[int] = set()
+        prev: tuple[int, bool] | None = None
+        for n, kind, closing, behind in self.attempts:
+            crit = kind == "fail" and bool(closing) and behind == 0
+            if crit and prev == (n, True):
+                out.add(n)
+            prev = (n, crit)
+        return out
+
+
+# ---- scanner runs (C11: the command layer in front of the client) ----------------------------------------------------
+class ScanTransport(BaseTransport, scheme="vfscan"):
+    """In-process transport for runs of a real UDSScanner: write() hands the request to `responder` (async callable
+    bytes -> list of replies), read() delivers a queued reply or times out after one scheduling point.  `probe()` is
+    evaluated when the request is written and again when the read that ends the exchange returns; both values are logged,
+    so the oracle knows what the scanner's settings were while the request was on the wire.
+    log: {"q": request, "replies": [...], "tags": [...], "at_write": probe(), "at_read": probe() | None} per write."""
+
+    def __init__(self, target: TargetURI, responder: Callable[[bytes], Awaitable[list[bytes]]], probe: Callable[[], Any]) -> None:
+        super().__init__(target)
+        self.responder = responder
+        self.probe = probe
+        self.queue: list[bytes] = []
+        self.log: list[dict[str, Any]] = []
+        self.closed = 0
+
+    @classmethod
+    async def connect(cls, target: str | TargetURI, timeout: float | None = None) -> "ScanTransport":
+        raise NotImplementedError
+
+    async def close(self) -> None:
+        self.closed += 1
+        self.is_closed = True
+
+    async def reconnect(self, timeout: float | None = None) -> "ScanTransport":
+        return self
+
+    async def write(self, data: bytes, timeout: float | None = None, tags: list[str] | None = None) -> int:
+        self.queue.clear()
+        self.log.append({"q": bytes(data), "replies": [], "tags": list(tags or []), "at_write": self.probe(), "at_read": None})
+        self.queue.extend(await self.responder(bytes(data)))
+        return len(data)
+
+    async def read(self, timeout: float | None = None, tags: list[str] | None = None) -> bytes:
+        await asyncio.sleep(0)
+        if self.log:
+            self.log[-1]["at_read"] = self.probe()
+        if not self.queue:
+            raise TimeoutError("no reply")
+        r = self.queue.pop(0)
+        self.log[-1]["replies"].append(r)
+        return r
+
+
+class TransportLoaders:
+    """Stands in for gallia.plugins.plugin.load_transport while scanners run: `load_transport(target).connect(target)` hands
+    out the transport registered for that target URI (several scanners may run concurrently on one loop)."""
+
+    def __init__(self) -> None:
+        self.by_target: dict[str, BaseTransport] = {}
+        self._orig: Any = None
+
+    def register(self, target: str, transport: BaseTransport) -> None:
+        self.by_target[target] = transport
+
+    def __call__(self, target: Any) -> Any:
+        loaders = self
+
+        class _Loader:
+            @staticmethod
+            async def connect(t: Any, timeout: float | None = None) -> BaseTransport:
+                return loaders.by_target[t.raw if hasattr(t, "raw") else str(t)]
+
+        return _Loader
+
+    def __enter__(self) -> "TransportLoaders":
+        from gallia.plugins import plugin
+
+        self._orig = plugin.load_transport
+        plugin.load_transport = self  # type: ignore[assignment]
+        return self
+
+    def __exit__(self, *exc: Any) -> None:
+        from gallia.plugins import plugin
+
+        plugin.load_transport = self._orig  # type: ignore[assignment]
